@@ -354,12 +354,52 @@ class Inliner:
                                         self.new[('f', al.asname or al.name)] = hobj
                                     except NotInlinable as e:
                                         self.skipped.append((al.name, str(e)))
+                # `from package import module` / `import package.module as module`: new functions of that module called as module.f(...)
+                if isinstance(st, (ast.ImportFrom, ast.Import)):
+                    for al in st.names:
+                        if isinstance(st, ast.ImportFrom):
+                            if st.level:
+                                base = os.path.dirname(relpath)
+                                for _ in range(st.level - 1):
+                                    base = os.path.dirname(base)
+                                mp = os.path.join(base, *(st.module.split('.') if st.module else []), al.name)
+                            elif st.module and st.module.startswith('singlecellmultiomics'):
+                                mp = st.module.replace('.', '/') + '/' + al.name
+                            else:
+                                continue
+                            alias = al.asname or al.name
+                        else:
+                            if not al.name.startswith('singlecellmultiomics') or not al.asname:
+                                continue
+                            mp = al.name.replace('.', '/')
+                            alias = al.asname
+                        rp = mp + '.py'
+                        rf = ref_functions().get(rp)
+                        if rf is None:
+                            continue
+                        other = loader(rp)
+                        if other is None:
+                            continue
+                        for ch in other.body:
+                            if isinstance(ch, ast.FunctionDef) and ch.name not in rf and not any(ch.name in fns for fns in ref_functions().values()):
+                                try:
+                                    hobj = Helper(f'{rp}:{ch.name}', ch, None)
+                                    hobj.module_consts = {st2.targets[0].id: st2.value for st2 in other.body if isinstance(st2, ast.Assign) and len(st2.targets) == 1
+                                                          and isinstance(st2.targets[0], ast.Name) and isinstance(st2.value, ast.Constant)}
+                                    top = {d.name for d in other.body if isinstance(d, (ast.FunctionDef, ast.ClassDef))} | \
+                                          {t.id for d in other.body if isinstance(d, ast.Assign) and not isinstance(d.value, ast.Constant) for t in d.targets if isinstance(t, ast.Name)}
+                                    hobj.module_needs = (rp, sorted({n.id for n in ast.walk(ch) if isinstance(n, ast.Name) and n.id in top and n.id != ch.name}))
+                                    self.new[('mf', alias, ch.name)] = hobj
+                                except NotInlinable as e:
+                                    self.skipped.append((ch.name, str(e)))
 
     # ---- call recognition
     def helper_of(self, call):
         f = call.func
         if isinstance(f, ast.Name) and ('f', f.id) in self.new:
             return self.new[('f', f.id)], None
+        if isinstance(f, ast.Attribute) and isinstance(f.value, ast.Name) and ('mf', f.value.id, f.attr) in self.new:
+            return self.new[('mf', f.value.id, f.attr)], None       # module_alias.new_function(...)
         if isinstance(f, ast.Attribute) and ('m', f.attr) in self.new:
             h = self.new[('m', f.attr)]
             recv = f.value
